@@ -818,3 +818,70 @@ def ijepa_sizes_keyed_by_step(res):
     add_direct(res, f"{rel}:frame:block-sizes-keyed-by-step-counter", "frame", not bad, where=rel, detail="; ".join(bad),
                note="the only random input of _sample_block_size is a generator seeded with self.step(); everything else it reads is configuration",
                model={"problems": bad} if bad else None)
+
+
+# ------------------------------------------------------------------------------------------------ C14: context entries are not aliases of instance state
+_MUTATORS = {"shuffle", "sort", "append", "extend", "insert", "pop", "remove", "clear", "fill", "fill_", "mul_", "add_", "sub_", "div_", "copy_",
+             "zero_", "clamp_", "update", "setdefault", "resize_", "put", "itemset"}
+
+
+def ctx_entries_not_aliases(res, dirs=None):
+    """what a transform records in the context must keep telling the truth after the transform is applied again: a value stored in
+    ctx[...] may not be (an alias of) an attribute of the instance that some method mutates in place"""
+    n = 0
+    for rel, cd in repo_classes(dirs or TRANSFORM_DIRS):
+        mutated = set()        # attributes of self mutated in place somewhere in the class
+        for node in ast.walk(cd):
+            if isinstance(node, (ast.Assign, ast.AugAssign)):
+                targets = node.targets if isinstance(node, ast.Assign) else [node.target]
+                for t in targets:
+                    if isinstance(t, ast.Subscript) and isinstance(t.value, ast.Attribute) and isinstance(t.value.value, ast.Name) and t.value.value.id == "self":
+                        mutated.add(t.value.attr)
+                if isinstance(node, ast.AugAssign) and isinstance(node.target, ast.Attribute) and isinstance(node.target.value, ast.Name) \
+                        and node.target.value.id == "self":
+                    pass            # rebinding of immutable values (counters) is not an in-place mutation of a recorded object
+            if isinstance(node, ast.Call) and isinstance(node.func, ast.Attribute) and node.func.attr in _MUTATORS:
+                recv = node.func.value
+                if isinstance(recv, ast.Attribute) and isinstance(recv.value, ast.Name) and recv.value.id == "self":
+                    mutated.add(recv.attr)                                   # self.A.shuffle() / self.A.mul_()
+                for a in node.args:                                          # rng.shuffle(self.A)
+                    if isinstance(a, ast.Attribute) and isinstance(a.value, ast.Name) and a.value.id == "self" and node.func.attr == "shuffle":
+                        mutated.add(a.attr)
+        bad = []
+        stores = 0
+        for fn in [f for f in cd.body if isinstance(f, ast.FunctionDef)]:
+            alias = {}          # local name -> attribute of self it was bound to
+            for node in ast.walk(fn):
+                if isinstance(node, ast.Assign) and len(node.targets) == 1 and isinstance(node.targets[0], ast.Name) and \
+                        isinstance(node.value, ast.Attribute) and isinstance(node.value.value, ast.Name) and node.value.value.id == "self":
+                    alias[node.targets[0].id] = node.value.attr
+            for node in ast.walk(fn):
+                if isinstance(node, ast.Assign) and any(isinstance(t, ast.Subscript) and ast.unparse(t.value) == "ctx" for t in node.targets):
+                    stores += 1
+                    vals = [node.value] + ([k.value for k in node.value.keywords] if isinstance(node.value, ast.Call) and ast.unparse(node.value.func) == "dict" else [])
+                    for v in vals:
+                        attr = None
+                        if isinstance(v, ast.Attribute) and isinstance(v.value, ast.Name) and v.value.id == "self":
+                            attr = v.attr
+                        elif isinstance(v, ast.Name) and v.id in alias:
+                            attr = alias[v.id]
+                        if attr is not None and attr in mutated:
+                            bad.append(f"{rel}:{node.lineno} ctx entry is self.{attr}, which the class mutates in place")
+        if stores:
+            n += 1
+            add_direct(res, f"{rel}::{cd.name}:frame:ctx-entries-are-not-aliases-of-mutated-state", "frame", not bad, where=rel, detail="; ".join(bad),
+                       note=f"{cd.name}: no recorded context value is an attribute of the instance that is mutated in place",
+                       model={"aliases": bad} if bad else None)
+    return n
+
+
+def no_process_dependent_sources(res, dirs, what):
+    """every class under `dirs`: no value or order derived from object hashes / addresses, clocks or OS entropy (ranks and
+    processes that agree on seed and epoch must agree on the draw)"""
+    n = 0
+    for rel, cd in repo_classes(dirs):
+        bad = process_dependent_sources(cd, rel)
+        n += 1
+        add_direct(res, f"{rel}::{cd.name}:frame:no-process-dependent-source", "frame", not bad, where=rel, detail="; ".join(bad),
+                   note=f"{cd.name} ({what}): no hash() / id() / set order / clock / OS entropy in any method", model={"reads": bad} if bad else None)
+    return n
